@@ -1,2 +1,30 @@
+/-
+  Driver — one JSON object per line in, one per line out.
+  Imports the executable model only (no Mathlib), so it links as a native
+  executable.  Every op is a thin JSON wrapper around a model definition.
+-/
+import Lean.Data.Json
 import PyndlModel
-def main : IO Unit := IO.println "driver"
+import PyndlDriver.Ops
+
+open Lean Pyndl
+
+partial def loop (h : IO.FS.Stream) (out : IO.FS.Stream) : IO Unit := do
+  let line ← h.getLine
+  if line.isEmpty then return ()
+  let reply : Json :=
+    match Json.parse line with
+    | .error e => Json.mkObj [("fatal", Json.str s!"json: {e}")]
+    | .ok j =>
+      match PyndlDriver.handle j with
+      | .ok r => r
+      | .error e => Json.mkObj [("fatal", Json.str e)]
+  let idv := match Json.parse line with
+    | .ok j => (j.getObjVal? "id").toOption.getD Json.null
+    | .error _ => Json.null
+  out.putStrLn (reply.setObjVal! "id" idv).compress
+  out.flush
+  loop h out
+
+def main : IO Unit := do
+  loop (← IO.getStdin) (← IO.getStdout)
